@@ -9,7 +9,6 @@ import (
 	"bufio"
 	"fmt"
 	"net"
-	"os"
 	"path/filepath"
 	"sort"
 	"strconv"
@@ -209,7 +208,7 @@ func LoadState(cfgDir string) (*State, []string) {
 		}
 	}
 	for _, f := range cfg.CertFiles() {
-		if data, err := os.ReadFile(f); err == nil {
+		if data, err := hapcfg.ReadFile(f); err == nil {
 			st.Certs[f] = normPEM(string(data))
 		} else {
 			errs = append(errs, fmt.Sprintf("certificate file %s: %v", f, err))
